@@ -8,7 +8,7 @@ COQ_MODEL = "run_c03"
 COQ_OK = "(ok_spec spec_c03)"
 COQ_INPUT_TYPE = "Z * list (Z * Z) * Z * Z"
 RULE = ("generated: exhaustive buffers of 0-2 bytes over an 8-value alphabet x every (p, n) in range; random buffers up to "
-        "64 KiB with every (p mod 8, n mod 8); distinct = distinct (kind, p mod 8, n mod 8, aligned-path, len class, boundary)")
+        "64 KiB with every (p mod 8, n mod 8); the header-field positions/widths on arbitrary buffers; distinct = distinct (kind, p mod 8, n mod 8, aligned-path, len class, boundary)")
 ASSUMPTIONS = ["int.from_bytes / bytes slicing / int.to_bytes are CPython's"]
 
 
@@ -75,6 +75,14 @@ def gen(rng, tier):
                     continue
                 choices = [nm, nm + 8, nm + 8 * rng.randrange(0, 11), maxn - ((maxn - nm) % 8), maxn]
                 n = rng.choice([c for c in choices if 0 <= c <= maxn] or [0])
+                for kind in (0, 1):
+                    cases.append({"kind": kind, "B": B.hex(), "p": p, "n": n})
+    # the positions and widths of the CCSDS primary header fields (and their neighbours), on buffers that are not valid packets
+    for _ in range(4 if tier == "quick" else 60):
+        ln = rng.choice([6, 7, 8, 12, 40])
+        B = rng.randbytes(ln)
+        for p, n in ((0, 3), (3, 1), (4, 1), (5, 11), (16, 2), (18, 14), (32, 16), (0, 16), (16, 16), (0, 48), (32, 15), (33, 16), (31, 16), (32, 8)):
+            if p + n <= 8 * ln:
                 for kind in (0, 1):
                     cases.append({"kind": kind, "B": B.hex(), "p": p, "n": n})
     if tier == "thorough":
